@@ -211,7 +211,7 @@ func c13Scenario(idx int, steps []c13Step, o, ot *peer) (map[string]any, []map[s
 		}
 		c := get(st.C)
 		k := st.K
-		if c.mitm && (k == "connect_tunnel" || k == "connect_rejected" || k == "upgrade" || k == "upgrade_close" || k == "mitm_connect" || k == "connect_write_error" || k == "connect_terminate_tls_fail") {
+		if c.mitm && (k == "connect_tunnel" || k == "connect_rejected" || k == "upgrade" || k == "upgrade_close" || k == "mitm_connect" || k == "connect_write_error" || k == "connect_terminate_tls_fail" || k == "mitm_connect_nohello" || k == "mitm_connect_badhello") {
 			k = "ok" // inside an intercepted session only plain requests are sent
 		}
 		evs = append(evs, map[string]any{"ev": "exchange", "c": st.C, "k": k})
@@ -298,6 +298,21 @@ func c13Scenario(idx int, steps []c13Step, o, ot *peer) (map[string]any, []map[s
 			}
 			c.mitm = true
 			expectCodes["200"]++
+		case "mitm_connect_nohello", "mitm_connect_badhello":
+			// the CONNECT is answered 200 and the session never comes about: the client goes away without a byte, or what
+			// it sends is no TLS handshake. The request was answered: it is reported complete like any other
+			c.raw.send([]byte("CONNECT mitm.origin.test:443 HTTP/1.1\r\nHost: mitm.origin.test:443\r\n\r\n"))
+			if r, err := c.raw.recv("CONNECT", 8*time.Second); err != nil || r.Status != 200 {
+				fail(fmt.Sprintf("MITM CONNECT failed: %v", err))
+				break
+			}
+			if k == "mitm_connect_badhello" {
+				c.raw.send([]byte("this is not a ClientHello\r\n\r\n"))
+				c.raw.conn.SetReadDeadline(time.Now().Add(3 * time.Second))
+				io.Copy(io.Discard, c.raw.br) // until the proxy gives up on the session
+			}
+			expectCodes["200"]++
+			drop(st.C)
 		case "abort_upload":
 			c.raw.send([]byte("POST " + pfx + path + " HTTP/1.1\r\nHost: " + host + "\r\nContent-Length: 1000000\r\n\r\n" + strings.Repeat("x", 10000)))
 			time.Sleep(20 * time.Millisecond)
